@@ -249,6 +249,18 @@ def run_case(ctx, mods, cap, cs, r):
         ctx.violation("C19/separation.%s/no-permutation" % fn, "no-permutation",
                       "separation." + fn, "compute_permutation=False returns perm %r"
                       % resn[nmet].tolist(), case)
+    # a single source may be given as a 1-d signal
+    if nsrc == 1 and not images and ref.ndim == 2:
+        res1 = f(ref[0], est[0])
+        ctx.ev()
+        ctx.count("relation.one_source_as_1d")
+        if not all(np.array_equal(np.asarray(a), np.asarray(b), equal_nan=True)
+                   for a, b in zip(res, res1)):
+            ctx.violation("C19/separation.%s/one-source-1d" % fn, "one-source-1d",
+                          "separation." + fn, "a 1-d signal scores %s, the same signal as "
+                          "a (1, n) array %s" % (short([np.asarray(x).tolist() for x in res1], 120),
+                                                 short([np.asarray(x).tolist() for x in res], 120)),
+                          case)
     # ... and scores estimate j against reference j: on the estimates put in
     # the optimal order it must reproduce the scores of the permuted call
     pi = perm.astype(int)
